@@ -55,6 +55,39 @@ def rgba(c):
     return tuple(round(x, 4) for x in mc.to_rgba(c))
 
 
+class _Styles:
+    """How the library draws each kind of artist, read from its public DEFAULT_KWARGS table (so that a change of colours or line
+    widths made there is not mistaken for a change of what is shown); the values of the pinned version are the fallback."""
+    def load(self, pp):
+        d = getattr(pp, "DEFAULT_KWARGS", {})
+        g = lambda k, a, v: d.get(k, {}).get(a, v)
+        self.lw_acc, self.c_acc = g("individual_valid_hvsr_curve", "linewidth", 0.3), rgba(g("individual_valid_hvsr_curve", "color", "#888888"))
+        self.lw_rej, self.c_rej = g("individual_invalid_hvsr_curve", "linewidth", 0.3), rgba(g("individual_invalid_hvsr_curve", "color", "lightpink"))
+        self.lw_mean, self.c_mean, self.ls_mean = g("mean_hvsr_curve", "linewidth", 1.3), rgba(g("mean_hvsr_curve", "color", "black")), g("mean_hvsr_curve", "linestyle", "-")
+        self.lw_std, self.c_std, self.ls_std = (g("nth_std_mean_hvsr_curve", "linewidth", 1.3), rgba(g("nth_std_mean_hvsr_curve", "color", "black")),
+                                                g("nth_std_mean_hvsr_curve", "linestyle", "--"))
+        self.m_mean = g("peak_mean_hvsr_curve", "marker", "D")
+        self.m_2d = g("peak_mean_hvsr_curve_azimuthal_2d", "marker", "s")
+        self.m_ind = g("peak_individual_valid_hvsr_curve", "marker", "o")
+        self.face_acc = g("peak_individual_valid_hvsr_curve", "markerfacecolor", "white")
+        self.face_rej = g("peak_individual_invalid_hvsr_curve", "markerfacecolor", "lightpink")
+
+    def acc(self, ln):
+        return ln.get_linewidth() == self.lw_acc and rgba(ln.get_color()) == self.c_acc
+
+    def rej(self, ln):
+        return ln.get_linewidth() == self.lw_rej and rgba(ln.get_color()) == self.c_rej
+
+    def mean(self, ln):
+        return ln.get_linewidth() == self.lw_mean and rgba(ln.get_color()) == self.c_mean and ln.get_linestyle() == self.ls_mean
+
+    def std(self, ln):
+        return ln.get_linewidth() == self.lw_std and rgba(ln.get_color()) == self.c_std and ln.get_linestyle() == self.ls_std
+
+
+STY = _Styles()
+
+
 class PlotHook:
     def __init__(self, run, hvsrpy, na, stride):
         import matplotlib
@@ -69,6 +102,7 @@ class PlotHook:
         self.captured = []
         import hvsrpy.postprocessing as pp
         self.pp = pp
+        STY.load(pp)
         pp.display = lambda s: self.captured.append(s)
         ts = hvsrpy.TimeSeries
         x = np.sin(np.arange(40) * 0.7)
@@ -137,17 +171,17 @@ class PlotHook:
             if out is not None:
                 fig, axs = out
                 ax_before, ax_after = axs[1], axs[3]
-                nb = sum(1 for ln in ax_before.get_lines() if ln.get_linewidth() == 0.3 and rgba(ln.get_color()) == rgba("#888888"))
+                nb = sum(1 for ln in ax_before.get_lines() if STY.acc(ln))
                 if nb != len(s["vw"][0]):
                     self.fail("prepost:before-count", f"'before rejection' panel shows {nb} curves, the object has {len(s['vw'][0])}", sline, cv, inst)
-                na_ = sum(1 for ln in ax_after.get_lines() if ln.get_linewidth() == 0.3 and rgba(ln.get_color()) == rgba("#888888"))
-                nr_ = sum(1 for ln in ax_after.get_lines() if ln.get_linewidth() == 0.3 and rgba(ln.get_color()) == rgba("lightpink"))
+                na_ = sum(1 for ln in ax_after.get_lines() if STY.acc(ln))
+                nr_ = sum(1 for ln in ax_after.get_lines() if STY.rej(ln))
                 if (na_, nr_) != (sum(s["vw"][0]), len(s["vw"][0]) - sum(s["vw"][0])):
                     self.fail("prepost:after-count", f"'after rejection' panel shows {na_} accepted / {nr_} rejected curves", sline, cv, inst)
                 self.check_prepost_markers(ax_before, ax_after, inner[0], lambda k_, m_: self.fail(k_, m_, sline, cv, inst))
                 # waveform panels: one line per window and component, styled by the window mask
                 for axw in (axs[0], axs[2], axs[4]):
-                    cols = [rgba(ln.get_color()) == rgba("#888888") for ln in axw.get_lines()]
+                    cols = [rgba(ln.get_color()) == STY.c_acc for ln in axw.get_lines()]
                     if cols != s["vw"][0]:
                         self.fail("prepost:waveform-style", f"waveform panel styles {cols} do not follow the window mask", sline, cv, inst)
             if rec_digest(self.recs) != d_r:
@@ -167,7 +201,7 @@ class PlotHook:
                 out, err = self.guarded(name, fn, real, obj, sline, cv, events, allow=(ValueError, ZeroDivisionError, TypeError, AttributeError))
                 if name == "plot_azimuthal_contour_2d" and out is not None and all(a["ncv"] >= 2 for a in sline["az"]):
                     fig, (ax, cax) = out
-                    mk = [ln for ln in ax.get_lines() if ln.get_marker() == "s"]
+                    mk = [ln for ln in ax.get_lines() if ln.get_marker() == STY.m_2d]
                     if len(mk) != 1:
                         self.fail("contour2d:markers", f"{len(mk)} mean-curve-peak marker artists", sline, cv, inst)
                     else:
@@ -203,28 +237,29 @@ class PlotHook:
         """peak markers of the two HVSR panels against the object's OWN per-window peaks and masks:
         before = every window that has a peak, drawn as accepted; after = by the peak mask"""
         def marks(ax, face):
-            return sorted((float(x), float(y)) for ln in ax.get_lines() if ln.get_marker() == "o" and rgba(ln.get_markerfacecolor()) == rgba(face)
+            return sorted((float(x), float(y)) for ln in ax.get_lines() if ln.get_marker() == STY.m_ind and rgba(ln.get_markerfacecolor()) == rgba(face)
                           for x, y in zip(ln.get_xdata(), ln.get_ydata()) if not np.isnan(x))
         frq, amp = np.asarray(trad._main_peak_frq, dtype=float), np.asarray(trad._main_peak_amp, dtype=float)
         has = ~np.isnan(frq)
         vp = np.asarray(trad.valid_peak_boolean_mask, dtype=bool)
         want_before = sorted((float(f), float(a)) for f, a, h_ in zip(frq, amp, has) if h_)
-        if marks(ax_before, "white") != want_before or marks(ax_before, "lightpink"):
-            fail("prepost:before-peaks", f"'before rejection' peak markers {marks(ax_before, 'white')} (+ rejected-style {marks(ax_before, 'lightpink')}) "
+        white, pink = STY.face_acc, STY.face_rej
+        if marks(ax_before, white) != want_before or marks(ax_before, pink):
+            fail("prepost:before-peaks", f"'before rejection' peak markers {marks(ax_before, white)} (+ rejected-style {marks(ax_before, pink)}) "
                                          f"are not the object's window peaks {want_before}")
         want_a = sorted((float(f), float(a)) for f, a, h_, v in zip(frq, amp, has, vp) if h_ and v)
         want_r = sorted((float(f), float(a)) for f, a, h_, v in zip(frq, amp, has, vp) if h_ and not v)
-        if marks(ax_after, "white") != want_a or marks(ax_after, "lightpink") != want_r:
-            fail("prepost:after-peaks", f"'after rejection' peak markers accepted {marks(ax_after, 'white')} / rejected {marks(ax_after, 'lightpink')} "
+        if marks(ax_after, white) != want_a or marks(ax_after, pink) != want_r:
+            fail("prepost:after-peaks", f"'after rejection' peak markers accepted {marks(ax_after, white)} / rejected {marks(ax_after, pink)} "
                                         f"are not the object's {want_a} / {want_r}")
 
     # ------------------------------------------------------------------------------------------
     def check_single_panel(self, ax, obj, inner, sline, cv, inst, dm, df):
         s = sline["s"]
         lines = ax.get_lines()
-        thin = [ln for ln in lines if ln.get_linewidth() == 0.3 and ln.get_marker() in ("None", "", None)]
-        acc = [ln for ln in thin if rgba(ln.get_color()) == rgba("#888888")]
-        rej = [ln for ln in thin if rgba(ln.get_color()) == rgba("lightpink")]
+        thin = [ln for ln in lines if (STY.acc(ln) or STY.rej(ln)) and ln.get_marker() in ("None", "", None)]
+        acc = [ln for ln in thin if STY.acc(ln)]
+        rej = [ln for ln in thin if STY.rej(ln) and not STY.acc(ln)]
         want_acc = [tuple(i.amplitude[w]) for i, m in zip(inner, s["vw"]) for w in range(len(m)) if m[w]]
         want_rej = [tuple(i.amplitude[w]) for i, m in zip(inner, s["vw"]) for w in range(len(m)) if not m[w]]
         got_acc = [tuple(ln.get_ydata()) for ln in acc]
@@ -239,20 +274,20 @@ class PlotHook:
         st = sline["az"][0] if self.na == 1 else sline["w"]
         okc = (st["ncv"] >= 2) if self.na == 1 else st["okc"]
         okf = (st["nfn"] >= 2) if self.na == 1 else st["ok"]
-        thick = [ln for ln in lines if ln.get_linewidth() == 1.3 and rgba(ln.get_color()) == rgba("black")]
+        thick = [ln for ln in lines if STY.mean(ln) or STY.std(ln)]
         if okc:
             mc = np.array([inst.a_mean(rat(m)) for m in st["mc"]])
             up = np.array([inst.a_nth(rat(m), rat(v), 1) for m, v in zip(st["mc"], st["vc"])])
             dn = np.array([inst.a_nth(rat(m), rat(v), -1) for m, v in zip(st["mc"], st["vc"])])
-            solid = [ln for ln in thick if ln.get_linestyle() == "-"]
-            dashed = [ln for ln in thick if ln.get_linestyle() == "--"]
+            solid = [ln for ln in thick if STY.mean(ln)]
+            dashed = [ln for ln in thick if STY.std(ln)]
             if len(solid) != 1 or not np.allclose(solid[0].get_ydata(), mc, rtol=RTOL, atol=1e-12):
                 self.fail("panel:mean-curve", f"mean-curve line {[list(l.get_ydata()) for l in solid]} is not the exact mean curve {mc.tolist()}", sline, cv, inst)
             ok_d = len(dashed) == 2 and ((np.allclose(dashed[0].get_ydata(), up, rtol=RTOL, atol=1e-12) and np.allclose(dashed[1].get_ydata(), dn, rtol=RTOL, atol=1e-12)) or
                                          (np.allclose(dashed[1].get_ydata(), up, rtol=RTOL, atol=1e-12) and np.allclose(dashed[0].get_ydata(), dn, rtol=RTOL, atol=1e-12)))
             if not ok_d:
                 self.fail("panel:std-curves", "the two dashed lines are not the exact +-1 standard deviation curves", sline, cv, inst)
-            dia = [ln for ln in lines if ln.get_marker() == "D"]
+            dia = [ln for ln in lines if ln.get_marker() == STY.m_mean]
             if len(dia) != 1:
                 self.fail("panel:mean-peak-marker", f"{len(dia)} mean-curve-peak markers", sline, cv, inst)
             else:
@@ -263,11 +298,11 @@ class PlotHook:
                 elif not np.isclose(dia[0].get_ydata()[0], mc[gi - 1], rtol=RTOL):
                     self.fail("panel:mean-peak-marker", "mean-curve-peak marker amplitude is not the mean curve's value", sline, cv, inst)
         # individual peak markers: accepted (white) and rejected (lightpink) by the peak mask
-        circ = [ln for ln in lines if ln.get_marker() == "o"]
+        circ = [ln for ln in lines if ln.get_marker() == STY.m_ind]
         want_a = sorted((float(i._main_peak_frq[w]), float(i._main_peak_amp[w])) for i, m, p in zip(inner, s["vp"], s["pk"]) for w in range(len(m)) if m[w] and p[w] != 0)
         want_r = sorted((float(i._main_peak_frq[w]), float(i._main_peak_amp[w])) for i, m, p in zip(inner, s["vp"], s["pk"]) for w in range(len(m)) if not m[w] and p[w] != 0)
-        got_a = sorted((float(x), float(y)) for ln in circ if rgba(ln.get_markerfacecolor()) == rgba("white") for x, y in zip(ln.get_xdata(), ln.get_ydata()) if not np.isnan(x))
-        got_r = sorted((float(x), float(y)) for ln in circ if rgba(ln.get_markerfacecolor()) == rgba("lightpink") for x, y in zip(ln.get_xdata(), ln.get_ydata()) if not np.isnan(x))
+        got_a = sorted((float(x), float(y)) for ln in circ if rgba(ln.get_markerfacecolor()) == rgba(STY.face_acc) for x, y in zip(ln.get_xdata(), ln.get_ydata()) if not np.isnan(x))
+        got_r = sorted((float(x), float(y)) for ln in circ if rgba(ln.get_markerfacecolor()) == rgba(STY.face_rej) for x, y in zip(ln.get_xdata(), ln.get_ydata()) if not np.isnan(x))
         if got_a != want_a:
             self.fail("panel:accepted-peaks", f"accepted peak markers {got_a} differ from the accepted peaks {want_a}", sline, cv, inst)
         if got_r != want_r:
@@ -376,8 +411,7 @@ def replot_after_change(run, hvsrpy, hook):
         return np.array(out)
 
     def lines_of(ax):
-        thick = [ln for ln in ax.get_lines() if ln.get_linewidth() == 1.3 and rgba(ln.get_color()) == rgba("black")]
-        return [ln for ln in thick if ln.get_linestyle() == "-"], [ln for ln in thick if ln.get_linestyle() == "--"]
+        return [ln for ln in ax.get_lines() if STY.mean(ln)], [ln for ln in ax.get_lines() if STY.std(ln)]
 
     n = 0
     for kind in ("traditional", "azimuthal"):
